@@ -35,7 +35,14 @@ def full_assign(rq: Dict[str, Any], model: Dict[str, Any], r: random.Random, mod
         a = codecgen.assignments_for(rq, dobjs, tier, r, hostile=False)
         return a[::max(1, len(a) // 6)]
     by = {o["name"]: o for o in model["dobjs"]}
-    return [codeccompose.good_params(rq["params"], by, r, omit_defaults=False) for _ in range(4)]
+    out = []
+    for i in range(4):
+        codeccompose._ITEMS[0] = 3 if i == 2 else None  # one assignment with three-item fields
+        try:
+            out.append(codeccompose.good_params(rq["params"], by, r, omit_defaults=False))
+        finally:
+            codeccompose._ITEMS[0] = None
+    return out
 
 
 def has_condensed(model: Dict[str, Any], params: List[Dict[str, Any]]) -> bool:
